@@ -10,6 +10,8 @@ pub mod registry;
 pub mod c01;
 #[cfg(any(feature = "c02", not(kani)))]
 pub mod c02;
+#[cfg(any(feature = "c03", not(kani)))]
+pub mod c03;
 #[cfg(any(feature = "c04", not(kani)))]
 pub mod c04;
 #[cfg(any(feature = "c05", not(kani)))]
@@ -18,6 +20,10 @@ pub mod c05;
 pub mod c07;
 #[cfg(any(feature = "c08", not(kani)))]
 pub mod c08;
+#[cfg(any(feature = "c09", not(kani)))]
+pub mod c09;
+#[cfg(any(feature = "c10", not(kani)))]
+pub mod c10;
 #[cfg(any(feature = "c11", feature = "c01", not(kani)))]
 pub mod c11;
 #[cfg(any(feature = "c12", not(kani)))]
